@@ -1,5 +1,6 @@
 /- Driver.Strings — line protocol for the `strings` engine (C04). -/
 import Hw.Bitmap.Scan
+import Hw.Bitmap.ScanCursor
 import Driver.Util
 namespace Driver.StringsEng
 open Hw Driver
@@ -47,6 +48,28 @@ def showScan (r : Bitmap.ScanRes) : String :=
         ws.foldl (fun s w => s ++ " " ++ (match w with | some w => wordHex w | none => "?")) ""
     else "undef"
 
+/-- answer of a parse op: the cursor-level model (`Hw.Bitmap.Cursor`) gives result, set, furthest index read and
+the allocation; the structural model must agree wherever it is defined (else `model-mismatch`, which never
+matches a harness line); the model's own logs are re-checked (`log-oob` never matches either) -/
+def showParse (pre len : Nat) (old : Bitmap.ScanRes) (o : Bitmap.Cursor.Out) (isList : Bool) : String :=
+  if isList && o.big then "unsupported" else
+  let r := o.res.toScan
+  if old != .unsupported && old != r then "model-mismatch" else
+  if o.res == .assertFail then "model-assert" else
+  let safe := o.log.reads.all (fun i => decide (i ≤ len)) &&
+              o.log.writes.all (fun w => decide (0 ≤ w.1) && decide (w.1 < (w.2 : Int))) &&
+              o.log.ustr.all (fun i => decide (i < 17))
+  if !safe then "log-oob" else
+  showScan r ++ " maxread " ++ toString o.log.maxRead ++
+    (if isList then "" else " alloc " ++ toString (Bitmap.Cursor.allocFor pre o.nalloc))
+
+/-- some run of 5 or more consecutive alphanumeric bytes -/
+def longRun : List Nat → Nat → Bool
+  | [], n => decide (5 ≤ n)
+  | c :: cs, n =>
+    if 5 ≤ n then true
+    else if (48 ≤ c && c ≤ 57) || (65 ≤ c && c ≤ 90) || (97 ≤ c && c ≤ 122) then longRun cs (n + 1) else longRun cs 0
+
 def step (u : Unit) (line : String) : Unit × String :=
   match tokens line with
   | "snprintf" :: fmt :: cap :: inf :: ws =>
@@ -61,16 +84,27 @@ def step (u : Unit) (line : String) : Unit × String :=
       | some cs => (u, "ret " ++ toString (text cs).length ++ " str " ++ bytesHex (text cs))
       | none => (u, "bad-op")
     | none => (u, "bad-op")
-  | ["sscanf", fmt, s] =>
-    match parseBytes s with
-    | some bs =>
+  | "sscanf" :: fmt :: s :: more =>
+    -- optional 4th token: `ulongs_allocated` of the fresh destination (HWLOC_BITMAP_PREALLOC_ULONGS), default 8
+    let pre? : Option Nat := match more with
+      | [] => some 8
+      | [p] => parseNat p
+      | _ => none
+    match parseBytes s, pre? with
+    | some bs, some pre =>
       if bs.any (· == 0) then (u, "bad-op") else
       match fmt with
-      | "hwloc" => (u, showScan (Bitmap.hwlocScan bs))
-      | "list" => (u, showScan (Bitmap.listScan bs))
-      | "taskset" => (u, showScan (Bitmap.tasksetScan bs))
+      | "hwloc" => (u, showParse pre bs.length (Bitmap.hwlocScan bs) (Bitmap.Cursor.hwlocSscanfC bs) false)
+      | "list" =>
+        -- the structural list model is re-run as a cross-check only when it is cheap (no number of 5+ digits: the
+        -- bitmap set/set_range models are quadratic in the word count); `C04_list_sscanf_refines` proves the
+        -- two models equal on the structural domain for every string, so nothing is lost when it is skipped
+        let o := Bitmap.Cursor.listSscanfC bs
+        let old := if longRun bs 0 then o.res.toScan else Bitmap.listScan bs
+        (u, showParse pre bs.length old o true)
+      | "taskset" => (u, showParse pre bs.length (Bitmap.tasksetScan bs) (Bitmap.Cursor.tasksetSscanfC bs) false)
       | _ => (u, "bad-op")
-    | none => (u, "bad-op")
+    | _, _ => (u, "bad-op")
   | _ => (u, "bad-op")
 
 end Driver.StringsEng
